@@ -144,6 +144,17 @@ def func_calling(fb, file, callee_short, kind=("call", "mcall")):
     return hits[0]
 
 
+def driver_of(fb, prog, file, callee_short):
+    """the function of `file` that holds the tool's option handling and set-up and from which `callee_short` is reached: main
+    itself, a worker main delegates to, or the caller of a small helper - the largest function of the file reaching the call"""
+    inner = func_calling(fb, file, callee_short)
+    cands = [inner]
+    for g in fb.funcs.values():
+        if g.file == file and g.body is not None and g is not inner and inner.id in prog.reachable([g]):
+            cands.append(g)
+    return max(cands, key=lambda g: len(g.nodes()))
+
+
 def main_of(fb, file):
     m = [f for f in fb.funcs.values() if f.d.get("main") and f.file == file]
     if not m:
